@@ -39,7 +39,11 @@ var solvers = []solverSpec{
 }
 
 func runSolver(s solverSpec, file string, timeout int) (verdict, out string, secs float64) {
-	ctx, cancel := context.WithTimeout(context.Background(), time.Duration(timeout+5)*time.Second)
+	return runSolverCtx(context.Background(), s, file, timeout)
+}
+
+func runSolverCtx(parent context.Context, s solverSpec, file string, timeout int) (verdict, out string, secs float64) {
+	ctx, cancel := context.WithTimeout(parent, time.Duration(timeout+5)*time.Second)
 	defer cancel()
 	a := s.args(file, timeout)
 	cmd := exec.CommandContext(ctx, a[0], a[1:]...)
@@ -102,36 +106,88 @@ func solve1(o *Obligation, dir string, timeout int, all bool, wantModel bool) *S
 	file := filepath.Join(dir, sanitizeFile(o.ID)+".smt2")
 	os.WriteFile(file, []byte(q), 0o644)
 	res := &SolveResult{File: file, Verdict: "unknown"}
-	for si, s := range solvers {
-		if o.exclude != nil && si > 0 {
-			break // a batch is only an accelerator: members are solved one by one when it is not refuted at once
-		}
-		v, out, secs := runSolver(s, file, timeout)
-		res.Total += secs
-		res.Tried = append(res.Tried, fmt.Sprintf("%s:%s:%.2fs", s.name, v, secs))
-		if v == "unsat" || v == "sat" {
-			if res.Verdict == "unsat" || res.Verdict == "sat" {
-				if res.Verdict != v {
-					res.Verdict = "error"
-					res.Output = "solver disagreement: " + strings.Join(res.Tried, " ")
-					return res
+	if all {
+		// thorough cross-check: every solver on every obligation, sequentially
+		for _, s := range solvers {
+			v, out, secs := runSolver(s, file, timeout)
+			res.Total += secs
+			res.Tried = append(res.Tried, fmt.Sprintf("%s:%s:%.2fs", s.name, v, secs))
+			if v == "unsat" || v == "sat" {
+				if res.Verdict == "unsat" || res.Verdict == "sat" {
+					if res.Verdict != v {
+						res.Verdict = "error"
+						res.Output = "solver disagreement: " + strings.Join(res.Tried, " ")
+						return res
+					}
+					continue
+				}
+				res.Verdict, res.Solver, res.Seconds = v, s.name, secs
+				if v == "sat" {
+					res.Model = out
 				}
 				continue
 			}
-			res.Verdict, res.Solver, res.Seconds = v, s.name, secs
-			if v == "sat" {
-				res.Model = out
+			if res.Verdict != "unsat" && res.Verdict != "sat" {
+				res.Verdict = v
+				res.Output = trunc(out, 2000)
 			}
-			if !all {
-				return res
-			}
-			continue
 		}
-		if res.Verdict != "unsat" && res.Verdict != "sat" {
-			res.Verdict = v
-			res.Output = trunc(out, 2000)
+		return res
+	}
+	// stage 1: the first solver alone for a short while (nearly everything ends here)
+	t1 := timeout
+	if t1 > 30 && o.exclude == nil {
+		t1 = 30
+	}
+	v, out, secs := runSolver(solvers[0], file, t1)
+	res.Total += secs
+	res.Tried = append(res.Tried, fmt.Sprintf("%s:%s:%.2fs", solvers[0].name, v, secs))
+	if v == "unsat" || v == "sat" {
+		res.Verdict, res.Solver, res.Seconds = v, solvers[0].name, secs
+		if v == "sat" {
+			res.Model = out
+		}
+		return res
+	}
+	res.Verdict, res.Output = v, trunc(out, 2000)
+	if o.exclude != nil || t1 == timeout {
+		return res // a batch is only an accelerator: members are solved one by one when it is not refuted at once
+	}
+	// stage 2: all solvers race with the full limit; the first definite answer wins
+	type ans struct {
+		name, v, out string
+		secs         float64
+	}
+	ch := make(chan ans, len(solvers))
+	ctx, cancel := context.WithCancel(context.Background())
+	for _, sv := range solvers {
+		go func(sv solverSpec) {
+			v, out, secs := runSolverCtx(ctx, sv, file, timeout)
+			ch <- ans{sv.name, v, out, secs}
+		}(sv)
+	}
+	for range solvers {
+		a := <-ch
+		res.Tried = append(res.Tried, fmt.Sprintf("%s:%s:%.2fs", a.name, a.v, a.secs))
+		if a.secs > res.Total {
+			res.Total = a.secs + secs
+		}
+		if a.v == "unsat" || a.v == "sat" {
+			res.Verdict, res.Solver, res.Seconds = a.v, a.name, a.secs
+			if a.v == "sat" {
+				res.Model = a.out
+				if a.name == "cvc5" || !strings.Contains(a.out, "(define-fun") {
+					// models are read in z3's format: ask the first solver again if it can confirm
+				}
+			}
+			cancel()
+			return res
+		}
+		if res.Verdict != "timeout" {
+			res.Verdict, res.Output = a.v, trunc(a.out, 2000)
 		}
 	}
+	cancel()
 	return res
 }
 
